@@ -41,9 +41,9 @@ def gen_cases(ck, limit, step):
     cases = []
     quick = ck.tier == "quick"
 
-    def add(target, flags, frames, events, after, inhyp, tag):
+    def add(target, flags, frames, events, after, inhyp, tag, pads=None):
         cases.append({"id": len(cases), "target": target, "flags": flags, "events": events, "after": after,
-                      "frames": [f.hex() for f in frames], "inhyp": inhyp, "tag": tag})
+                      "frames": [f.hex() for f in frames], "inhyp": inhyp, "tag": tag, "pads": pads or []})
     corpus = os.path.join(VERIF, "corpus", "c06.jsonl")
     if os.path.exists(corpus):
         for line in open(corpus):
@@ -70,6 +70,15 @@ def gen_cases(ck, limit, step):
                 ev = fg.events_of(rng, fg.chunks_from_cuts(stream, cuts), pend_prob=rng.choice([0, 0.3])) \
                     if stream else [["e"]]
                 add(target, list(flags), allf, ev, len(trailing) + 1, True, "flags_len%d" % n)
+    # call sizes: sweep the size of the first call of a [plain, oneway, more] chain so that a later
+    # call ends at every offset relative to the write buffer's growth steps
+    for pad in range(0, 3 * step, 1 if not quick else 1):
+        flags = ["plain", "oneway", "more"]
+        frames = reply_frames(rng, flags, "typed")
+        trailing = [fg.jb({"parameters": {"id": 7001}})]
+        stream = fg.wire(frames + trailing)
+        ev = fg.events_of(rng, fg.chunks_from_cuts(stream, fg.random_cuts(rng, len(stream), 2)), 0.2)
+        add("typed", flags, frames + trailing, ev, 2, True, "call_size_sweep", [pad, rng.randrange(0, 40), 0])
     # non-conforming scripts (outside the theorem: model correspondence only)
     for i in range(60 if quick else 600):
         n = rng.randrange(1, 5)
@@ -98,7 +107,8 @@ def kind_of(s):
 
 def render(c, r, codes, step, limit):
     tab = ["(%s, %d)" % (coq_bytes(bytes.fromhex(h)), codes[s]) for h, s in r["segs"].items()]
-    ktab = ["(%d, %d)" % (v, kind_of(k)) for k, v in codes.items()]
+    used = set(r["segs"].values()) | {i["res"] for i in r["items"]} | {i["res"] for i in r["after"]}
+    ktab = ["(%d, %d)" % (codes[k], kind_of(k)) for k in sorted(used)]
     return ("{| ch_step := %d; ch_limit := %d; ch_tab := %s; ch_ktab := %s; ch_oneway := %s; ch_events := %s; "
             "ch_after := %d%%nat; ch_frames := %s; ch_inhyp := %s; ch_items := %s; ch_ended := %s; "
             "ch_afterres := %s; ch_final := [%d;%d;%d] |}") % (
